@@ -211,6 +211,11 @@ impl CertificateSigningRequestParams {
 						params.subject_alt_names.extend(names);
 					},
 					x509_parser::extensions::ParsedExtension::ExtendedKeyUsage(eku) => {
+						// `eku` is the first element of the value: anything after it would be dropped
+						match Header::from_der(ext.value) {
+							Ok((purposes, seq)) if seq.length() == Length::Definite(purposes.len()) => {},
+							_ => return Err(Error::UnsupportedExtension),
+						}
 						if eku.any {
 							params.insert_extended_key_usage(crate::ExtendedKeyUsagePurpose::Any);
 						}
